@@ -112,14 +112,16 @@ def doc_params(tier):
     out = []
     kinds = ["b1"] + INT_TYPES + FLOAT_TYPES + [f"M8[{u}]" for u in TIME_UNITS] + [f"m8[{u}]" for u in TIME_UNITS] + ["U"]
     k = 0
+    shapes = SHAPES if tier == "quick" else SHAPES + [(5,), (1, 1), (2, 3), (3, 2), (4, 1), (1, 4)]
     for kind in kinds:
-        for shape in SHAPES:
+        for shape in shapes:
             rots = range(n_rotations(kind)) if shape != (0,) else [0]
             for j in rots:
                 orders = ["=", ">"] if kind not in ("b1", "U", "i1", "u1") else ["="]
                 for bo in orders:
                     for as_list in ([False, True] if kind in ("b1", "i8", "f8", "U") and bo == "=" else [False]):
-                        out.append({"t": "array", "kind": kind, "shape": list(shape), "j": j, "bo": bo, "list": as_list, "attrs": k % len(ATTRS)})
+                        for a in ([k % len(ATTRS)] if tier == "quick" else range(len(ATTRS))):
+                            out.append({"t": "array", "kind": kind, "shape": list(shape), "j": j, "bo": bo, "list": as_list, "attrs": a})
                         k += 1
             if kind[0] in "Mm" and shape in ((), (1,), (3,)):
                 for j in (100, 101, 102, 103):
